@@ -4,6 +4,7 @@ from qvlib.facts import op_local, op_place
 from qvlib.paths import Flow, agg_sites, call_matches, discr_switches, explore, path_desc
 
 CRATES = None
+OPTIONAL_FNS = ("Worker::notify_result", "Worker::deliver_message", "Worker::update_program")      # private Worker helpers that may be inlined into their only caller
 REPL = "quiver_environment::repl::Repl"
 SESSION_FIELDS = ("bindings", "module_cache", "last_result_type", "program", "repl_process_id", "resolver", "builtins")
 
